@@ -65,6 +65,11 @@ HANDWRITTEN = [
     ('for-missing-semicolon', 'void f(void) { int i; for (i = 0 i < 3; ) ; }\n'), ('for-missing-semicolon2', 'void f(void) { for (int i = 0; i < 3 i++) ; }\n'),
     ('struct-incdec', 'struct s { int a; } x; void f(void) { x++; }\n'), ('void-cast-int', 'int f(void) { return (int)(void)0; }\n'),
     ('undef-inside-own-call', '#define F(x) x + x\nint a = F(\n#undef F\n1);\n#define G(x) x\nint b = G(\n#undef G\n#define G(y) y y\n2) G(3);\n'),
+    # every white-space character between tokens, line endings with carriage returns, every simple escape (also as case labels:
+    # the self-compiled compiler's own scanner switches on them)
+    ('whitespace-vt-ff', 'int\va\f=\t1;\v\fint b;\n'), ('crlf-line-ends', 'int a;\r\nint b;\r\n'), ('lone-cr', 'int a;\rint b;\n'),
+    ('all-simple-escapes', 'char s[] = "\\a\\b\\f\\n\\r\\t\\v\\\\\\\'\\"\\?"; int v = \'\\v\' + \'\\a\' * 2 + \'\\f\' * 3 + \'\\r\' * 5 + \'\\t\' * 7 + \'\\b\' * 11 + \'\\n\' * 13;\n'
+                           'int w(int c) { switch (c) { case \'\\v\': return 1; case \'\\f\': return 2; case \'\\r\': return 3; case \'\\a\': return 4; case \'\\b\': return 5; case \'\\t\': return 6; } return 0; }\n'),
     ('define-identical-inside-call', '#define H(x) x + x\nint c = H(\n#define H(x) x + x\n4);\n#define W(a, b) #a b\nconst char *s = W(q,\n#define W(a, b) #a b\n"r");\nint d = H(1);\n'),
     ('define-identical-after-use', '#define H(x) x + x\nint c = H(1);\n#define H(x) x + x\nint d = H(2);\n#define H(x) x + x\n#define K 1\n#define K 1\nint e = K;\n'),
     ('define-inside-call', '#define H(x) x\nint c = H(\n#define H(x) x x\n4);\n'),
